@@ -117,7 +117,9 @@ def _act(ctx, victim, mode, fault):
             h.undo(change=h.undo_list[ctx.sel % len(h.undo_list)], **kw)
         else:
             h.redo(**kw)
-    except Exception as e:
+    except (KeyboardInterrupt, SystemExit, kernel.HarnessError):
+        raise
+    except BaseException as e:  # noqa: B036 - whatever rope lets escape is an outcome to be judged
         exc = e
     ctx.fs.disarm()
     return exc, stopper
@@ -198,6 +200,7 @@ class AtomicEngine(Engine):
             # sometimes the undo list is already full when the victim is performed
             "limit": rng.choice([32, 32, 1, 2, 3]),
             "suffixless_p": rng.choice([0.0, 0.0, 0.3]),
+            "bytes_p": rng.choice([0.0, 0.0, 0.1]),
         }
         if rng.random() < 0.25:
             # victim = a real refactoring on a small multi-module program
